@@ -364,6 +364,25 @@ def run_probe_groups(binary, probes, group, quarantine=True, extra_prelude="", t
     return out
 
 
+def run_confirmed(ctx, binary, lines, what):
+    """runs requests; a request that crashed or timed out is run again alone in a fresh process (the quarantining allocator never
+    returns memory, so a long-lived harness process under a loaded machine can be killed or starved): only a failure that
+    repeats is reported; the number of unconfirmed ones goes into the notes"""
+    recs = yvlib.run_harness(binary, lines, quarantine=True, case_timeout_ms=30000, recycle=40)
+    again = [i for i, r in enumerate(recs) if r.crashed]
+    if again:
+        r2 = yvlib.run_harness(binary, [lines[i] for i in again], quarantine=True, case_timeout_ms=60000, recycle=1)
+        flaky = 0
+        for i, r in zip(again, r2):
+            if not r.crashed:
+                flaky += 1
+            recs[i] = r
+        if flaky:
+            ctx.notes.append("%d of %d %s requests crashed or timed out inside a long-lived harness process but ran normally when repeated alone "
+                             "(resource exhaustion of the test machine, not counted)" % (flaky, len(lines), what))
+    return recs
+
+
 def classify_lines(lines):
     """the snippet prints ok / <class T> ... or err / <class E> / message (a probe of print() prints its argument first)"""
     lines = lines or []
@@ -819,10 +838,10 @@ def run(ctx):
     log('[C02] derived-receiver probes: %d in %.1fs' % (len(dprobes), time.time() - t0))
     t0 = time.time()
     # ---- (b) ill-typed programs: oracle impl == S ----
-    nprog = 500 if quick else 5000
+    nprog = 500 if quick else 3000
     gen = ProgGen(rng)
     progs = [gen.program(rng.randint(8, 30)) for _ in range(nprog)]
-    precs = yvlib.run_harness(binary, [mods_line(s) for s in progs], quarantine=True, case_timeout_ms=30000)
+    precs = run_confirmed(ctx, binary, [mods_line(s) for s in progs], "debug")
     pres = {}
     errk = {}
     pviol = []
@@ -840,7 +859,7 @@ def run(ctx):
         feats = ("safe_active_fiber", "safe_class_lookup", "safe_stack", "safe_vm_opcodes", "debug_stress_gc")
         rbin = ctx.harness("release", features=feats)
         builds.append("release+" + "+".join(feats))
-        rrecs = yvlib.run_harness(rbin, [mods_line(s) for s in progs], quarantine=True, case_timeout_ms=30000)
+        rrecs = run_confirmed(ctx, rbin, [mods_line(s) for s in progs], "release+safe")
         for s, r, d in zip(progs, rrecs, precs):
             bad = bad_record(r)
             if bad:
@@ -877,8 +896,8 @@ def run(ctx):
             ctx.violation("%s: %s" % (cls, summary), input=w, expected="Ok or Err(Error)", actual=bad, known_class=cls)
     if not quick:
         rbin = ctx.harness("release")
-        for depth in (1000, 100000):
-            drecs = yvlib.run_harness(rbin, ["run - " + hx(w % depth) for _, _, w in DEEP], quarantine=False, case_timeout_ms=120000)
+        for depth in (1000, 100000, 1000000):
+            drecs = yvlib.run_harness(rbin, ["c02stack 8192 " + hx(w % depth) for _, _, w in DEEP], quarantine=False, case_timeout_ms=120000)
             for (cls, summary, w), r in zip(DEEP, drecs):
                 bad = bad_record(r)
                 hist["deep:%d:%s" % (depth, "bad" if bad else "ok")] = hist.get("deep:%d:%s" % (depth, "bad" if bad else "ok"), 0) + 1
